@@ -433,6 +433,7 @@ import fronteng
 import bodyeng
 import seqeng
 import patheng
+import accesseng
 eng_determinism = deteng.eng_determinism
 eng_copyprobe = probeeng.eng_copyprobe
 eng_valuetable = probeeng.eng_valuetable
@@ -449,11 +450,12 @@ eng_front = fronteng.eng_front
 eng_body = bodyeng.eng_body
 eng_seq = seqeng.eng_seq
 eng_paths = patheng.eng_paths
+eng_access = accesseng.eng_access
 
 WF_NOTE = "the well-formedness of every accepted provider map (wfb) is proved (C05_accepted_maps_well_formed); the correspondence run still evaluates it per accepted case as a redundant check"
 SYNTH_NOTE = "explicit loop bounds of the model: acyc_fuel and solve_fuel are proved sufficient for every accepted map (C07_linear_bound, C07_planner_linear_bound); on rejected maps the planner is not run by Wire"
 PROPS = {
-    "C01": {"level_text": "Machine-checked proof in Coq 8.16.1 over an executable model tied to the code by a per-run correspondence; the emission model and the name-freshness theorems are proved; that the emitted package compiles under Go's type checker is established by compiling every accepted program of the corpus (partial).", "theorems": ["C01_one_implementation", "C01_injector_emitted_iff", "C14_names_distinct", "C14_invented_names_fresh"], "engines": [eng_prog, eng_zerovalue, eng_multi, eng_layouts, eng_forms, eng_body, eng_seq],
+    "C01": {"level_text": "Machine-checked proof in Coq 8.16.1 over an executable model tied to the code by a per-run correspondence; the emission model and the name-freshness theorems are proved; that the emitted package compiles under Go's type checker is established by compiling every accepted program of the corpus (partial).", "theorems": ["C01_one_implementation", "C01_injector_emitted_iff", "C01_injectors_emitted_once", "C14_names_distinct", "C14_invented_names_fresh"], "engines": [eng_prog, eng_zerovalue, eng_multi, eng_layouts, eng_forms, eng_body, eng_seq],
             "assumptions": ["partial: Go's full type checker and types.TypeString are not modelled; that the package compiles is established by go build on every accepted program"]},
     "C02": {"theorems": ["C02_wiring_accepted", "C02_each_type_built_once", "C02_provider_called_at_most_once", "C02_called_only_if_needed", "C02_machine_refines_visit", "C06_accepted_is_complete_accepted", "C05_accepted_maps_well_formed"], "engines": [eng_synth, eng_prog, eng_multi, eng_layouts], "assumptions": [SYNTH_NOTE, WF_NOTE, "emission of the planned calls and the run-time behaviour are tied by the emitted-lines correspondence and the runtime traces"]},
     "C03": {"theorems": ["C03_failure", "C03_nothing_called_after_failure", "C03_unwinds_exactly_the_succeeded", "C03_unwinds_once", "C03_own_cleanup_never_runs"], "engines": [eng_prog],
@@ -472,12 +474,12 @@ PROPS = {
     "C11": {"theorems": ["C11_bind_accepts", "C11_colocated", "C11_shared_instance", "C02_wiring_accepted"], "engines": [eng_synth, eng_prog, eng_forms, eng_front, eng_layouts], "assumptions": [SYNTH_NOTE, "Go's method-set rule (types.Implements) is go/types' and is not modelled"]},
     "C12": {"theorems": ["C12_fieldsof_accepts", "C12_fieldsof_pointer_iff", "C12_struct_needs_named_struct", "C12_check_field_sound", "C12_star_selects_unprevented", "C12_struct_provider_outputs"], "engines": [eng_prog, eng_forms, eng_layouts, eng_front],
             "assumptions": ["field names are ASCII; strconv.Quote and strings.EqualFold are modelled on ASCII identifiers", "FieldsOf name resolution shares checkField; its front end is exercised through the binary only"]},
-    "C13": {"theorems": ["C13_ifacevalue_accepts", "C13_whitelist_sound", "C13_whitelist_complete", "C13_internal_package_rule"], "engines": [eng_valuetable, eng_forms, eng_copyprobe, eng_prog, eng_layouts, eng_multi, eng_front, eng_paths],
+    "C13": {"theorems": ["C13_ifacevalue_accepts", "C13_whitelist_sound", "C13_whitelist_complete", "C13_internal_package_rule", "C13_accessible_iff_nameable"], "engines": [eng_valuetable, eng_forms, eng_copyprobe, eng_prog, eng_layouts, eng_multi, eng_front, eng_paths, eng_access],
             "assumptions": ["expression trees are abstracted to the node kinds processValue distinguishes; the mapping from Go syntax to kinds is the table's (hand-written per form)",
                             "evaluation once at package initialisation is Go's semantics of package-level variables, not modelled"]},
     "C14": {"theorems": ["C14_names_distinct", "C14_file_names_distinct", "C14_emitted_pass_names_fresh", "C14_invented_names_fresh", "C14_disambiguate_fresh", "C16_collision_order_independent"], "engines": [eng_prog, eng_multi, eng_layouts, eng_rename, eng_copydecls],
             "assumptions": ["identifiers are ASCII in the model; non-ASCII names are outside the generated corpus"]},
-    "C15": {"level_text": "Machine-checked proof in Coq 8.16.1 over an executable model tied to the code by a per-run correspondence; the copy is proved to be the identity for any complete table and the table is regenerated from copyAST each run; the renaming pass is modelled (Rename.v, tied by a hook that runs the real rewritePkgRefs) and proved never to capture; the qualification pass (package references) is exercised by the copy corpus and the layouts, not modelled (partial).", "theorems": ["C15_copy_identity", "C15_missing_field_is_lost", "C15_renaming_never_captures", "C15_layout_is_sections", "C15_copied_iff", "C15_copied_once", "C15_copied_in_source_order"], "engines": [eng_copyprobe, eng_copydecls, eng_rename, eng_seq],
+    "C15": {"level_text": "Machine-checked proof in Coq 8.16.1 over an executable model tied to the code by a per-run correspondence; the copy is proved to be the identity for any complete table and the table is regenerated from copyAST each run; the renaming pass is modelled (Rename.v, tied by a hook that runs the real rewritePkgRefs) and proved never to capture; the qualification pass (package references) is exercised by the copy corpus and the layouts, not modelled (partial).", "theorems": ["C15_copy_identity", "C15_missing_field_is_lost", "C15_renaming_never_captures", "C15_layout_is_sections", "C15_copied_iff", "C15_copied_once", "C15_copied_in_source_order", "C15_nothing_emitted_twice"], "engines": [eng_copyprobe, eng_copydecls, eng_rename, eng_seq],
             "assumptions": ["partial: the second (renaming) pass of rewritePkgRefs is modelled as a pass over the sequence of identifier occurrences (Rename.v, tied by the renameprobe hook); its first pass (package qualifiers) and Go's scoping of the copied declarations are exercised by the declaration corpus (structure + behaviour), not modelled",
                             "go/printer prints what copyAST returns; not modelled"]},
     "C16": {"level_text": "Machine-checked proof in Coq 8.16.1 over an executable model tied to the code by a per-run correspondence; order-independence of every map-driven decision of the model is proved; loader behaviour across layouts is sampled by byte-comparing runs (partial).", "theorems": ["C16_collision_order_independent", "C16_import_block_order_independent", "C16_vendor_prefix_stripped", "C16_unvendored_path_is_clean", "C10_analysis_order_independent", "C10_phase_order_independent", "C07_cycles_detected"], "engines": [eng_determinism, eng_paths],
@@ -494,5 +496,5 @@ PROPS = {
                             "proved parts: the modelled rules (funcOutput, field selection, cycle check) are total functions; zeroValue is total over the regenerated kind table"]},
 }
 
-HOOK_COMMITS = ["fc0854c", "b8ca607", "2f47b21", "272baf3"]
+HOOK_COMMITS = ["fc0854c", "b8ca607", "2f47b21", "272baf3", "7ffb9a5"]
 NOT_YET = {}
